@@ -433,7 +433,7 @@ def check_C08(chk):
     chk.traces = max(0, run["evaluations"] - len(chk.violations))
 
 
-COST_CONST = dict(A=256, B=64, Ratio=3, MinKiB=64, CallsPerKiB=2048, KInstrPerKiB=2000)
+COST_CONST = dict(A=1024, B=64, Ratio=3, MinKiB=64, CallsPerKiB=4096, KInstrPerKiB=4000)
 
 
 def cost_describe(ev):
